@@ -192,7 +192,8 @@ class CFG:
             for m, lab in outs:
                 self.link(m, self.exit, lab)
             return []
-        if isinstance(s, ast.Raise):
+        if isinstance(s, ast.Raise) or (isinstance(s, ast.Assert) and isinstance(s.test, ast.Constant) and not s.test.value):
+            # `assert False, msg` is the project's idiom for "unreachable": it never falls through
             n = self.new("raise", s, tag)
             self.attach(ins, n)
             if self.exceptional:
